@@ -190,7 +190,7 @@ def build(kind, fname, extra, rg, probe, vals=None):
     base = kind[4:] if kind.startswith("sib:") else kind
 
     nnk = ("nn_flat", "nn_nested", "nn_tied", "nn_method", "nn_call", "nn_extra")
-    need_param = {"a": base in nnk + ("em_nn", "multi_nn_em"), "b": base in nnk + ("multi_em_nn",)}
+    need_param = {"a": base in nnk + ("em_nn", "multi_nn_em", "multi3"), "b": base in nnk + ("multi_em_nn",)}
     a = _mk_leaf(vals["a"], "a" in rg, need_param["a"])
     b = _mk_leaf(vals["b"], "b" in rg, need_param["b"])
     p = _mk_leaf(vals["p"], "p" in rg, False)
@@ -242,6 +242,83 @@ def build(kind, fname, extra, rg, probe, vals=None):
         bsup = b if inside else b + 0.3 * a
         rep.fcn, rep.params = fn, (a, bsup, p) + s_tuple
         rep.logp, rep.pparams = logp, (a, bsup)
+    elif base == "pure_twice":
+        # the same tensor object supplied at two positions of the explicit parameters
+        def fn(*args):
+            probe.tick()
+            xs, a1, a2, bb, pp = args[:nx], args[nx], args[nx + 1], args[nx + 2], args[nx + 3]
+            s = args[nx + 4] if extra else 1.0
+            return core(*xs, a1 * a2, bb, pp, s)
+
+        def logp(x, a1, a2, bb):
+            probe.tick()
+            return logp_core(x, a1 * a2, bb)
+        rep.fcn, rep.params = fn, (a, a, b, p) + s_tuple
+        rep.logp, rep.pparams = logp, (a, a, b)
+    elif base == "em_twice":
+        # a tensor held by the object is also passed explicitly
+        class EMTwice(EditableModule):
+            def __init__(self):
+                self.a = a
+                self.b = b
+
+            def fn(self, *args):
+                probe.tick()
+                xs, a2, pp = args[:nx], args[nx], args[nx + 1]
+                s = args[nx + 2] if extra else 1.0
+                return core(*xs, self.a * a2, self.b, pp, s)
+
+            def logp(self, x, a2):
+                probe.tick()
+                return logp_core(x, self.a * a2, self.b)
+
+            def getparamnames(self, methodname, prefix=""):
+                if methodname in ("fn", "logp"):
+                    return [prefix + "a", prefix + "b"]
+                raise KeyError(methodname)
+        m = EMTwice()
+        rep.fcn, rep.params, rep.logp, rep.pparams = m.fn, (a, p) + s_tuple, m.logp, (a,)
+        rep.holders = [m]
+        rep.slots = [(m, "a", 0), (m, "b", 1)]
+        rep.nobj = 2
+    elif base == "multi3":
+        # a sibling of THREE methods of three different objects (nn.Module, EditableModule, EditableModule)
+        class EM3(EditableModule):
+            def __init__(self, t):
+                self.t = t
+
+            def val(self):
+                return self.t
+
+            def getparamnames(self, methodname, prefix=""):
+                if methodname == "val":
+                    return [prefix + "t"]
+                raise KeyError(methodname)
+
+        class NN3(torch.nn.Module):
+            def __init__(self, t):
+                super().__init__()
+                self.t = t
+
+            def sq(self):
+                return self.t * self.t
+        o1, o2, o3 = NN3(a), EM3(b), EM3(p)
+
+        @make_sibling(o1.sq, o2.val, o3.val)
+        def fn(*args):
+            probe.tick()
+            xs = args[:nx]
+            s = args[nx] if extra else 1.0
+            return core(*xs, o1.sq(), o2.val(), o3.val(), s)
+
+        @make_sibling(o1.sq, o2.val)
+        def logp(x):
+            probe.tick()
+            return logp_core(x, o1.sq(), o2.val())
+        rep.fcn, rep.params, rep.logp = fn, s_tuple, logp
+        rep.holders = [o1, o2, o3]
+        rep.slots = [(o1, "t", 0), (o2, "t", 1), (o3, "t", 2)]
+        rep.nobj = 3
     elif base == "em_dep":
         class EMDep(EditableModule):
             def __init__(self):
@@ -603,7 +680,7 @@ METHODS = {
     "rootfinder": ["broyden1", "broyden2", "linearmixing"],
     "equilibrium": ["broyden1", "anderson_acc"],
     "minimize": ["broyden1", "gd"],
-    "solve_ivp": ["rk4", "rk38", "euler", "rk45"],
+    "solve_ivp": ["rk4", "rk4:list", "rk38", "euler", "rk45", "rk45:list"],
     "quad": ["leggauss"],
     "mcquad": ["_dummy1d", "mh"],
     "jac": ["-"],
@@ -650,7 +727,17 @@ def run_functional(fname, rep, method=None, bck=None, light=False):
     if fname == "solve_ivp":
         ts = torch.tensor([0.0, 0.4] if light else [0.0, 0.3, 0.7], dtype=DT)
         y0 = torch.tensor([0.5, -0.4], dtype=DT)
+        as_list = method.endswith(":list")
+        method = method.split(":")[0]
         opts = dict(atol=1e-9, rtol=1e-8) if method in ADAPTIVE else {}
+        if as_list:
+            # the state as a list of two tensors: the same function wrapped as a sibling working on the pieces
+            @make_sibling(fcn)
+            def fcn_list(t, ys, *ps):
+                out = fcn(t, torch.cat([v.reshape(-1) for v in ys]), *ps)
+                return [out[:1], out[1:]]
+            yt = xi.solve_ivp(fcn_list, ts, [y0[:1], y0[1:]], params=params, method=method, bck_options={}, **opts)
+            return [torch.cat([v.reshape(v.shape[0], -1) for v in yt], dim=1)]
         yt = xi.solve_ivp(fcn, ts, y0, params=params, method=method, bck_options={}, **opts)
         return [yt]
     if fname == "quad":
